@@ -12,6 +12,7 @@ pub mod c04;
 pub mod c05;
 pub mod c06;
 pub mod c07;
+pub mod c08;
 pub mod cmdtable;
 pub mod c14;
 pub mod c15;
@@ -34,6 +35,7 @@ pub fn parent_main(prop: &str, tier: &str) -> i32 {
         "C15" => c15::parent(tier),
         "C05" => c05::parent(tier),
         "C17" => c17::parent(tier),
+        "C08" => c08::parent(tier),
         "C18" => c18::parent(tier),
         "C14" => c14::parent(tier),
         "C07" => c07::parent(tier),
@@ -85,6 +87,10 @@ pub fn worker_main(prop: &str, tier: &str, _slot: usize) {
         }
         "C18" => {
             let mut h = c18::handle_factory();
+            pool::worker_loop(|t, io| h(tier, t, io))
+        }
+        "C08" => {
+            let mut h = c08::handle_factory();
             pool::worker_loop(|t, io| h(tier, t, io))
         }
         "C17" => {
